@@ -118,6 +118,16 @@ def build(program):
         if var not in src.GetVariables():
             src.AddVariable(var, 'flow', expr)
         mod.RegisterCashFlow(src, dst, var, is_income_source=False, is_income_dest=False)
+    for (cc, sc, var, expr, stock) in program.get('gold', []):
+        sec = objs[(cc, sc)]
+        sec.AddVariable(var, 'gold purchases', expr)
+        mod.ExternalSector['GOLD'].SetGoldPurchases(sec, var, stock)
+    for (mc, mcode, sc, scode, share) in program.get('suppliers', []):
+        # the home business stays the residual supplier, the other one supplies a fixed share of demand
+        market = objs[(mc, mcode)]
+        home = [c for c in program['countries'] if c['code'] == mc][0]
+        market.AddSupplier(objs[(mc, home['roles']['bus'])])
+        market.AddSupplier(objs[(sc, scode)], '%r*%s' % (share, 'SUP_' + mcode))
     for (cur, path) in program.get('rates', []):
         mod.ExternalSector['XR'].SetExogenous(cur, path)
     mod.MaxTime = program.get('horizon', 6)
